@@ -308,7 +308,7 @@ def build(
 
     if is_delete:
         statics = header.statics
-        for folder in {namespace_folder} | overrides_folders:
+        for folder in overrides_folders - {namespace_folder}:
             if not os.path.isdir(folder):
                 continue
             if statics:
@@ -329,6 +329,18 @@ def build(
                 raise JMCBuildError(
                     "Something went wrong when deleting files, try deleting the namespace folder manually and try again."
                 ) from error
+        # The namespace folder holds jmc.txt, which is what authorises this deletion: it goes last,
+        # so that a build interrupted while deleting is cleaned up by the next build.
+        if os.path.isdir(namespace_folder):
+            if statics:
+                rmtree(namespace_folder, statics)
+            else:
+                try:
+                    shutil.rmtree(namespace_folder)
+                except OSError as error:
+                    raise JMCBuildError(
+                        "Something went wrong when deleting files, try deleting the namespace folder manually and try again."
+                    ) from error
 
     if not _is_virtual:
         make_cert(cert_config, cert_file)
